@@ -13,6 +13,7 @@ CONSTANTS
   Fine = FALSE
   Fix = {"F18"}
   Mut = {}
+  NoHist = FALSE
   Shapes <- ShapesWide
   GenLen = 30
   RejW = 6
